@@ -31,7 +31,7 @@ for src in sorted(glob.glob(os.path.join(V, 'seeded', '_incoming', 'C*', 'change
             'confirmed': {'patch_applies_to_repo_head': conf.get('applies'), 'demo_exit_code_unpatched': conf.get('demo_clean_rc'),
                           'demo_exit_code_patched': conf.get('demo_patched_rc'), 'test_suite_with_patch': conf.get('suite'),
                           'how': 'tools/verify_seed.sh: scratch git worktree of /repo HEAD under /tmp, demo.py run before and after git apply, pinned test suite run with the patch; worktree removed afterwards'},
-            'ran': 'tools/try_patch.sh seeded/%s/patch.diff %s  (copy of /repo/dataflows under /var/tmp with the patch applied, VERIF_REPO pointing at it, ./check %s --tier quick)' % (sid, prop, prop),
+            'ran': 'tools/try_patch.sh seeded/%s/patch.diff %s  (scratch copies of /repo/dataflows with the patch applied and of /verif under /var/tmp, VERIF_REPO pointing at the former, ./check %s --tier quick run in the latter)' % (sid, prop, prop),
             'caught': bool(viol), 'caught_with_failing_input': any(not v[2] for v in viol),
             'check_summary': out.strip().splitlines()[-1] if out.strip() else ''}
     json.dump(meta, open(os.path.join(dst, 'meta.json'), 'w'), indent=1)
